@@ -320,6 +320,46 @@ func regionPropagates(nonNil *ssa.BasicBlock, e ssa.Value, fn *ssa.Function) boo
 			}
 		}
 	}
+	// remembered for later: the error is merged (in the region) into a variable that some return of the function
+	// hands back (`if err != nil && first == nil { first = err }` ... `return first`)
+	if ei >= 0 && e.Referrers() != nil {
+		for _, r := range *e.Referrers() {
+			ph, ok := r.(*ssa.Phi)
+			if !ok {
+				continue
+			}
+			for _, ret := range core.Returns(fn) {
+				for _, o := range core.Origins(core.ReturnOperand(ret, ei)) {
+					if o == e || o == ssa.Value(ph) {
+						return true
+					}
+				}
+				// Origins looks through phis: also accept a return operand that IS a phi fed by ph
+				if rp, ok := core.ReturnOperand(ret, ei).(*ssa.Phi); ok {
+					seen := map[*ssa.Phi]bool{}
+					var feeds func(x *ssa.Phi) bool
+					feeds = func(x *ssa.Phi) bool {
+						if seen[x] {
+							return false
+						}
+						seen[x] = true
+						for _, ed := range x.Edges {
+							if ed == e || ed == ssa.Value(ph) {
+								return true
+							}
+							if p2, ok := ed.(*ssa.Phi); ok && feeds(p2) {
+								return true
+							}
+						}
+						return false
+					}
+					if feeds(rp) {
+						return true
+					}
+				}
+			}
+		}
+	}
 	return false
 }
 
